@@ -508,7 +508,10 @@ func genGraft(rf *kernel.Rand, name string) (ByteFault, bool) {
 	if !ok {
 		return ByteFault{}, false
 	}
-	switch m := rf.Intn(4); {
+	switch m := rf.Intn(5); {
+	case m == 4 && has["GPOS"]:
+		se := kernel.Pick(rf, [][2]int{{0, 0xFFFF}, {0, 0xFFFE}, {1, 0xFFFF}, {16, 16}, {17, 16}, {0, 15}})
+		return ByteFault{Kind: "graft", Tag: "GPOS", Data: faultdisk.SynthGPOSDevice(int(gid), se[0], se[1], rf.Range(1, 3)), Aim: fmt.Sprintf("GPOS:device table sizes %d-%d", se[0], se[1])}, true
 	case m == 3:
 		// a table the font may not even have: kerx format 0 with tuples, pair values are offsets
 		return ByteFault{Kind: "graft", Tag: "kerx", Data: faultdisk.SynthKerx0Tuple(int(gid), int(gid), uint16(kernel.Pick(rf, []int{0x7FFE, 0x8000, 0x8004, 0xFFFE, 40})), kernel.Pick(rf, []int{64, 0x8100, 0x10010})), Aim: "kerx:format 0 with tuples"}, true
